@@ -1,13 +1,18 @@
+\* simulation biased towards far matches made of maximal code words and extra bits
 SPECIFICATION Spec
 CONSTANTS
-  MaxBlocks = 5
+  MaxBlocks = 2
   MaxTokens = 40
   Lits = {0, 65, 255}
   LitChoices = {0, 1, 65, 66, 67, 97, 100, 200, 255}
   AllowCorrupt = FALSE
   AllowRuns = TRUE
   Sim = TRUE
-  DynOnly = FALSE
+  DynOnly = TRUE
   DynOpts <- AllDynOpts
+  LitPalette <- FarLit
+  DistPalette <- FarDist
+  LenChoices <- FarLen
+  DistChoices <- FarDistC
 INVARIANTS Agree Emit
 CHECK_DEADLOCK FALSE
